@@ -60,6 +60,177 @@ def all_strings(alpha, maxlen):
             yield "".join(t)
 
 
+# ---- real `rich.style.Style` values judged STRUCTURALLY (follow-up to the round-g miss: `Style.__eq__` without its
+# `_set_attributes` clause made `Segment.simplify` merge "not bold" into "none"; a check that compares styles with the
+# library's own `==`, or encodes them by `==`, cannot see that).  Never `==` / hash / str of a Style here.
+_ATTRS = ("bold", "dim", "italic", "underline", "blink", "blink2", "reverse", "conceal", "strike", "underline2", "frame", "encircle", "overline")
+
+
+def _ckey(c, with_name=False):
+    if c is None:
+        return None
+    t = c.triplet
+    k = (int(c.type), c.number, None if t is None else (t.red, t.green, t.blue))
+    return k + (c.name,) if with_name else k
+
+
+def skey(st, with_name=False):
+    """(tri-state of every attribute, colour (type, number, triplet), bgcolor, link); None stays None."""
+    if st is None:
+        return None
+    return (tuple(getattr(st, a) for a in _ATTRS), _ckey(st.color, with_name), _ckey(st.bgcolor, with_name), st.link)
+
+
+_EMPTY = ((None,) * len(_ATTRS), None, None, None)
+
+
+def kadd(a, b):
+    """Style.__add__ on keys (b wins where it says something)."""
+    if b is None:
+        return a
+    return (tuple(y if y is not None else x for x, y in zip(a[0], b[0])), b[1] or a[1], b[2] or a[2], b[3] or a[3])
+
+
+def sstream(line):
+    return [(c, skey(x.style), bool(x.is_control)) for x in line for c in x.text]
+
+
+class SEnc(Enc):
+    """Style ids by structural key (colour names included, so that ids are at least as fine as `Style.__eq__`)."""
+
+    def __init__(self):
+        self.ids = {}
+
+    def sid(self, st):
+        if st is None:
+            return None
+        return self.ids.setdefault(skey(st, True), len(self.ids) + 1)
+
+
+def _real_style_pool():
+    from rich.color import Color, ColorType
+    from rich.style import Style
+
+    eight1 = Color("color(1)", ColorType.EIGHT_BIT, number=1)  # same number as standard red, other colour type
+    return [
+        None, Style(), Style.null(),
+        # differ only in explicitly-False attributes / only in the set-mask
+        Style(bold=True), Style(bold=True), Style.parse("bold"), Style(bold=False), Style(italic=False), Style(bold=True, italic=False),
+        Style(italic=False, underline=False), Style(bold=False, italic=False), Style(dim=False), Style(overline=False), Style(overline=True),
+        # colours: standard 1 / eight-bit 1 / truecolor of the same red / default; with and without explicit-False attributes
+        Style(color="red"), Style(color="red", italic=False, underline=False), Style(color="red", bold=False), Style(color=eight1),
+        Style(color="#800000"), Style(color="#800001"), Style(color="default"), Style(bgcolor="red"), Style(bgcolor=eight1),
+        Style(color="red", bgcolor="red"), Style(bgcolor="red", reverse=False),
+        # links
+        Style(link="http://a"), Style(link="http://b"), Style(bold=True, link="http://a"), Style(bold=False, link="http://a"),
+        Style(color="red", link="http://a"),
+    ]
+
+
+def _real_style_cases(ctx, Segment, ref):
+    rng = ctx.rng
+    pool = _real_style_pool()
+    enc = SEnc()
+    width = lambda t: sum(ref[ord(ch)] for ch in t)  # noqa: E731
+
+    def one_simplify(segs, sample=None):
+        try:
+            got = list(Segment.simplify(list(segs)))
+        except BaseException as e:  # noqa
+            ctx.check(False, "simplify(real styles)", segs, f"raised {type(e).__name__}")
+            return
+        ctx.check(sstream(got) == sstream(segs), "simplify(real styles)", segs,
+                  f"simplify changed a character's style or control flag, compared attribute by attribute: {got!r}")
+        ctx.case("simplify", [enc.line(segs), MERGE_CTL], enc.line(got), shape="real-style", sample=sample)
+
+    # bounded-exhaustive: every ordered pair of pool styles on two adjacent text segments, and around a control segment
+    for i, a in enumerate(pool):
+        for j, b in enumerate(pool):
+            one_simplify([Segment("x", a), Segment("y", b)], sample=f"simplify([Segment('x',{a!r}),Segment('y',{b!r})])" if (i * 7 + j) % 97 == 0 else None)
+            one_simplify([Segment("x", a), Segment("y", b), Segment("z", a)])
+            one_simplify([Segment("x", a), Segment("\x07", b, True), Segment("z", a)])
+    texts = ["", "a", "ab", "あ", "a\nb", "\n", "̀", " ", "😽x", "b\n"]
+    n = 4000 if ctx.quick else 60000
+    for _ in range(n):
+        segs = [Segment(rng.choice(texts), rng.choice(pool), rng.random() < 0.15) for _ in range(rng.randint(0, 5))]
+        if rng.random() < 0.5:  # runs of near-equal styles: neighbours drawn from a small sub-pool
+            sub = rng.sample(pool, 3)
+            segs = [Segment(x.text, rng.choice(sub), x.is_control) for x in segs]
+        st = rng.choice(pool)
+        length, pad, nl = rng.randint(0, 6), rng.random() < 0.7, rng.random() < 0.5
+        one_simplify(segs)
+        try:
+            # adjust_line_length on the newline-free part
+            line = [x for x in segs if "\n" not in x.text or x.is_control]
+            got = Segment.adjust_line_length(list(line), length, style=st, pad=pad)
+            ll = sum(0 if x.is_control else width(x.text) for x in line)
+            gs, ls = sstream(got), sstream(line)
+            if ll <= length:
+                ok = gs == ls + ([(" ", skey(st), False)] * (length - ll) if pad else [])
+            else:
+                k = 0
+                while k < len(gs) and k < len(ls) and gs[k] == ls[k]:
+                    k += 1
+                ok = all(x[0] == " " and not x[2] for x in gs[k:])
+            ctx.check(ok, "adjust_line_length(real styles)", (line, length, st, pad), f"line content / styles changed, or padding not in the requested style (attribute by attribute): {got!r}")
+            ctx.case("adjust", [enc.line(line), length, enc_opt(enc.sid(st)), enc_bool(pad)], enc.line(got), shape="real-style")
+
+            # split_and_crop_lines against split_lines, structurally
+            got = [list(l) for l in Segment.split_and_crop_lines(list(segs), length, style=st, pad=pad, include_new_lines=nl)]
+            rlines = [list(l) for l in Segment.split_lines(list(segs))]
+            ok = len(got) == len(rlines)
+            for g, r in zip(got, rlines) if ok else ():
+                if nl and g and g[-1].text == "\n" and not g[-1].is_control:
+                    g = g[:-1]
+                rl = sum(0 if x.is_control else width(x.text) for x in r)
+                if rl <= length and sstream(g) != sstream(r) + ([(" ", skey(st), False)] * (length - rl) if pad else []):
+                    ok = False
+                if rl > length:
+                    gs, ls = sstream(g), sstream(r)
+                    k = 0
+                    while k < len(gs) and k < len(ls) and gs[k] == ls[k]:
+                        k += 1
+                    ok = ok and all(x[0] == " " and not x[2] for x in gs[k:])
+            ctx.check(ok, "split_and_crop_lines(real styles)", (segs, length, st, pad, nl), f"a line's characters / styles changed or the padding is not in the requested style (attribute by attribute): {got!r}")
+            ctx.case("split_crop", [enc.line(segs), length, enc_opt(enc.sid(st)), enc_bool(pad), enc_bool(nl), REBIND], enc.lines(got), shape="real-style")
+
+            # apply_style / strip_links / remove_color: expected style of every segment computed on keys
+            ps = rng.choice(pool) if rng.random() < 0.6 else None
+            st2 = st if rng.random() < 0.6 else None
+            got = list(Segment.apply_style(list(segs), st2, ps))
+            want = []
+            for x in segs:
+                cur = skey(x.style)
+                if st2 is not None:
+                    cur = None if x.is_control else kadd(skey(st2), cur)
+                if ps is not None:
+                    cur = None if x.is_control else (kadd(cur, skey(ps)) if cur is not None else skey(ps))
+                want.append((x.text, cur, bool(x.is_control)))
+            ctx.check([(g.text, skey(g.style), bool(g.is_control)) for g in got] == want, "apply_style(real styles)", (segs, st2, ps),
+                      f"apply_style result {got!r} is not style + segment style + post style, attribute by attribute")
+            got = list(Segment.strip_links(list(segs)))
+            want = []
+            for x in segs:
+                k = skey(x.style)
+                if x.is_control or k is None:
+                    want.append((x.text, k, bool(x.is_control)))
+                else:
+                    want.append((x.text, None if k == _EMPTY else k[:3] + (None,), False))
+            ctx.check([(g.text, skey(g.style), bool(g.is_control)) for g in got] == want, "strip_links(real styles)", segs,
+                      f"strip_links result {got!r} changed something other than the link")
+            got = list(Segment.remove_color(list(segs)))
+            want = []
+            for x in segs:
+                k = skey(x.style)
+                want.append((x.text, None if k is None or k == _EMPTY else (k[0], None, None, k[3]), bool(x.is_control)))
+            ctx.check([(g.text, skey(g.style), bool(g.is_control)) for g in got] == want, "remove_color(real styles)", segs,
+                      f"remove_color result {got!r} changed something other than the colours")
+        except BaseException as e:  # noqa: an exception in these helpers is a property failure with its input
+            ctx.check(False, "segment helpers(real styles)", (segs, length, st, pad, nl), f"raised {type(e).__name__}: {e}")
+    ctx.note(f"realstyle:pool{len(pool)}:distinct-keys{len({skey(p) for p in pool})}")
+    ctx.flush()
+
+
 def _lru_real(LRUCache, cap, ops):
     """Run ops on the real class. -> (outputs, items, per-step snapshots of items)."""
     c = LRUCache(cap)
@@ -416,6 +587,9 @@ def run(ctx):
         ctx.case("seg_line", [enc_bool(flag)], enc.seg(ln))
     got = [list(l) for l in Segment.split_lines([Segment("a"), Segment.line(), Segment("b", styles[1]), Segment.line(True), Segment("c")])]
     ctx.check([[x.text for x in l] for l in got] == [["a"], ["b", "\n", "c"]], "Segment.line", got, "split_lines does not split at Segment.line() / splits at a control line segment")
+    # ---- 4b. the same helpers over REAL Style objects, judged attribute by attribute (never Style.__eq__)
+    _real_style_cases(ctx, Segment, ref)
+
     # ---- 5. style-level helpers on duck-typed styles (ids; add a b = 100a+b; falsy iff id == 0)
     class FS:
         __slots__ = ("id",)
@@ -497,6 +671,12 @@ def run(ctx):
         "+ len, capacity 1 and 2, then seeded random histories of 1..30 operations (all five kinds) at capacities -1..8; the "
         "cache content (order and values) after every cell_len history; get_line_length / make_control / Segment.control / "
         "Segment.line / bool(segment) / cell_length on the segment lists; "
+        "+ (round-g follow-up) simplify / adjust_line_length / split_and_crop_lines / apply_style / strip_links / remove_color over "
+        "REAL rich.style.Style objects from a pool of 30 (27 structurally distinct; pairs differing only in explicitly-False "
+        "attributes, only in the set-mask, only in link, only in colour type: standard 1 / eight-bit 1 / truecolor; None vs Style() vs "
+        "Style.null(); equal-but-distinct objects): every ordered pair on adjacent segments (x3 shapes) + seeded random lists of <= 5 "
+        "segments; styles are compared and encoded by a structural key (attribute tri-states, colour (type, number, triplet), bgcolor, "
+        "link), never by Style.__eq__ / hash / str; "
         "distinct = distinct canonical requests" % (maxlen, ALPHA, len(texts), 4 if ctx.quick else 5)
     )
 
@@ -533,6 +713,12 @@ MANIFEST = {
     "chop_cells calls incl. positions beyond the width and width 0/1; ~24.5k LRUCache histories judged after every operation "
     "against an independent plain-dict-plus-recency oracle). LRUCache sequences: bounded-exhaustive <= 4 ops (quick) / <= 5 "
     "(thorough) over 10 operations x capacity 1, 2 (22,222 / 222,222 histories), then 2,000 / 40,000 seeded random histories. "
+    "Round-g follow-up: the style-carrying helpers are also run over REAL Style objects (pool of 30 incl. pairs differing only "
+    "in explicitly-False attributes / set-mask / link / colour type, None vs Style() vs Style.null()): all 900 ordered pairs x 3 "
+    "segment shapes through simplify plus 4,000 (quick) / 60,000 (thorough) seeded lists through simplify, adjust_line_length, "
+    "split_and_crop_lines (model-compared with structural style ids and judged per character) and apply_style, strip_links, "
+    "remove_color (judged against Style.__add__ / update_link / without_color recomputed on structural keys); style identity "
+    "there is a structural key of the harness's own, never Style.__eq__. "
     "Thorough otherwise as before: strings <= 7 plus 3,000 random strings of 8..80 characters, 6,000 cache histories, 250,000 "
     "segment lists, 120,000 style-helper segment lists.",
     "note": "Trusted: Lean kernel; axioms propext/Classical.choice/Quot.sound; translator harness/tables.py; the correspondence "
@@ -549,6 +735,9 @@ MANIFEST = {
     "and simplify-merges-control only classify a failure of those two statements, which is a VIOLATION on the repaired code. "
     "For the style-level helpers Style.__add__ / __bool__ / update_link / without_color are parameters of the model, "
     "instantiated by duck-typed style objects in the harness (real Style objects are used for the line-shaping cases). "
+    "The older line-shaping cases (4 real styles) and their Enc still identify styles by the library's own ==; only the "
+    "real-style class added after the round-g miss (Style.__eq__ without its _set_attributes clause, unnoticed then) is "
+    "independent of Style.__eq__/__hash__. "
     "adjust_line_length / set_shape with a negative length are outside the driven domain (lengths are naturals in the model).",
     "design_ref": "DESIGN.md section 7, C13",
 }
